@@ -135,7 +135,7 @@ func (g Graph) From(id int64) graph.Nodes {
 		return graph.Empty
 	}
 	if g.Node(id) == nil {
-		return nil
+		return graph.Empty
 	}
 	return &d6ForwardIterator{g: g, from: id, to: -1}
 }
